@@ -52,6 +52,9 @@ def _may_raise(node: ast.AST) -> bool:
     stack = [node]
     while stack:
         n = stack.pop()
+        if isinstance(n, ast.Call) and _is_total_call(n):
+            stack.extend(ast.iter_child_nodes(n))
+            continue
         if isinstance(n, (ast.Call, ast.Yield, ast.YieldFrom, ast.Await)):
             return True
         if isinstance(n, ast.Subscript) and isinstance(n.ctx, (ast.Load, ast.Del)):
@@ -69,6 +72,22 @@ def _may_raise(node: ast.AST) -> bool:
                 stack.append(d)
             continue
         stack.extend(ast.iter_child_nodes(n))
+    return False
+
+
+# calls that do not raise for any argument (trusted facts about builtins / contextvars)
+TOTAL_BUILTINS = {"isinstance", "hasattr", "callable", "id"}
+
+
+def _is_total_call(c: ast.Call) -> bool:
+    f = c.func
+    if isinstance(f, ast.Name) and f.id in TOTAL_BUILTINS:
+        return True
+    if isinstance(f, ast.Name) and f.id == "getattr" and len(c.args) == 3:
+        return True
+    # ContextVar.reset(token) with the token obtained from the matching set() does not raise
+    if isinstance(f, ast.Attribute) and f.attr == "reset" and len(c.args) == 1 and not c.keywords:
+        return True
     return False
 
 
@@ -297,10 +316,13 @@ class CFG:
                 fr.memo[mkey] = start
                 self._connect(cur, start)
                 cur = self._block(fr.stmt.finalbody, [(start, "n")], fr.frames)
-                # continue unwinding with the label of the jump kind
-                cur = [(e, _relabel(kind, lab)) for e, lab in cur]
                 if not cur:
                     return
+                # keep branch labels of the last statement: go through a join node, then
+                # continue unwinding with the label of the jump kind
+                j = self._new("join", None, "finally_end")
+                self._connect(cur, j)
+                cur = [(j, _relabel(kind, "n"))]
             elif fr.kind == "with":
                 mkey = (kind,) if kind in ("exc", "return") else (kind, id(self._loop_frame(frames, i)))
                 if mkey in fr.memo:
